@@ -54,6 +54,9 @@ def check_artefact(ctx, a, stats):
     if eg.signed_area([eg.fr(p) for p in body]) <= 0:
         V("closed_wall is not anticlockwise", {})
     inp = [tuple(map(float, p)) for p in wall_in]
+    if a.config.get("via") == "gfile":
+        # the wall went through the ten-significant-digit geqdsk text
+        inp = [(float("%.9E" % r), float("%.9E" % z)) for r, z in inp]
     cand = [inp, inp[::-1]]
     ok = False
     for c in cand:
